@@ -27,9 +27,9 @@ type opGen struct {
 	ids   []string
 	nextV int32
 	// values other parties might plausibly expect (initial values and earlier generated ones)
-	seenV []int32
-	seen  []mm
-	gen   bool // allow generated ids
+	seenV   []int32
+	seen    []mm
+	gen     bool // allow generated ids
 	include bool // allow include-filtered subscriptions
 }
 
